@@ -797,6 +797,9 @@ func main() {
 	}
 	flipSecs := time.Since(start).Seconds() - buildSecs
 	runSemantic(env, arts, workers)
+	if len(only) == 0 || only["cmdline"] {
+		cmdlinePhase(env, arts)
+	}
 
 	// evidence
 	run.Set("artifacts", artInfo)
@@ -833,7 +836,7 @@ func main() {
 		"flip_alphabet": "xor 0x01, xor 0x80 at every enumerated offset",
 		"formats":       len(builders),
 	})
-	run.Rule("a case is one mutated file verified by relic; non-trivial = the mutation hits a byte the independent reader classes as protected (flips), or is an asserted semantic mutation; keyed by artifact, offset and mask / mutation class and site")
+	run.Rule("a case is one mutated file verified by relic; non-trivial = the mutation hits a byte the independent reader classes as protected (flips), or is an asserted semantic mutation; keyed by artifact, offset and mask / mutation class and site; command line: for one artifact per format that needs no side file, the real `relic verify` binary on every sequence of <=3 files over {good copy, tampered copy (first covered byte, one bit)}: exit status non-zero exactly when a tampered file is present, every good file reported OK")
 	run.Assume("fixture keys and chain root->inter->leaf; trust pool holds only the fixture root; PGP keyring holds rsaA and rsaB")
 	run.Assume("classification of bytes is derived from the format specifications by harness-owned readers; bytes not clearly covered are left unclassified and only tallied")
 	for _, a := range arts {
